@@ -332,3 +332,6 @@ func verifH_C07_untyped_params() {
 	verifKnown("C07-untyped-schema-present-value-rejected", false)
 	verifReach("end")
 }
+
+//verif:harness id=C07 tier=quick,thorough witness=end bounds="same name, different location (shared with C05): a required path-item parameter id in query / header / cookie and an operation parameter id in query / header / cookie; each absent, 5, or x: overriding is by name and location"
+func verifH_C07_same_name_locations() { verifSameNameLocations("C07") }
